@@ -42,6 +42,8 @@ struct Live {
 }
 
 struct World<'a> {
+    /// the driver handles no local command at the moment (Step::Stall)
+    stalled: bool,
     plan: &'a Plan,
     rep: RunReport,
     root: PathBuf,
@@ -128,6 +130,7 @@ impl<'a> World<'a> {
             .collect();
         let dists = keys.iter().map(|k| xor_distance(&peer_bytes, &k.bytes)).collect();
         World {
+            stalled: false,
             plan,
             rep: RunReport::default(),
             root,
@@ -191,9 +194,11 @@ impl<'a> World<'a> {
     fn build(&mut self) {
         let mut b = NetworkBuilder::new(self.keypair.clone(), true);
         b.listen_addr("127.0.0.1:0".parse().unwrap());
+        hooks::set_local_cmd_channel_size(if self.plan.chan > 0 { Some(self.plan.chan) } else { None });
         let (network, events, driver) = b
             .verif_build_node(self.root.clone(), Some(self.plan.capacity), Some(self.plan.cache))
             .expect("verif_build_node");
+        hooks::set_local_cmd_channel_size(None);
         self.live = Some(Live {
             driver,
             network,
@@ -282,6 +287,13 @@ impl<'a> World<'a> {
     }
 
     async fn drain(&mut self, cause: Owner) {
+        if self.stalled {
+            // a stalled driver handles nothing; senders block once its command channel is full
+            settle().await;
+            let fresh = self.absorb(cause);
+            self.note_store_gates(&fresh);
+            return;
+        }
         loop {
             let Some(cmd) = self.driver().verif_try_recv_local_cmd() else {
                 break;
@@ -424,6 +436,11 @@ impl<'a> World<'a> {
     }
 
     async fn settle_all(&mut self) {
+        if self.stalled {
+            self.stalled = false;
+            self.rep.log("driver resumes");
+            self.drain(Owner::Other).await;
+        }
         for _ in 0..100_000 {
             let e = self.eligible();
             let Some(g) = e.first().cloned() else {
@@ -851,6 +868,7 @@ impl<'a> World<'a> {
 
     /// Crash: parked tasks never run. Then restart the whole driver from the directory.
     async fn crash_and_restart(&mut self, ctx: &str) {
+        self.stalled = false;
         for g in hooks::gates_pending() {
             hooks::gate_discard(g.id);
             self.gate_owner.remove(&g.id);
@@ -1203,6 +1221,13 @@ impl<'a> World<'a> {
                 self.rep.log("settle");
                 if self.rep.harness_error.is_none() {
                     self.check_quiescent("settle");
+                }
+            }
+            Step::Stall => {
+                if !self.stalled {
+                    self.stalled = true;
+                    self.rep.fault("driver_stalled");
+                    self.rep.log(format!("driver stalls (command channel capacity {})", if self.plan.chan > 0 { self.plan.chan } else { 10_000 }));
                 }
             }
             Step::DiskErr { key } => {
